@@ -35,6 +35,12 @@ CORPUS = [
      'tree': [13, [Q(1, 0, 2), [9, 2, [3, 6], [3, 6]]], [[3, 15], [11]]]},
     {'name': 'zero first: 0 + a[mV]', 'tree': [4, [0, 0, F(0)], [3, 6]]},
     {'name': 'zero first, consistent: _0[mV] + a[mV]', 'tree': [4, Q(1, 0, 2), [3, 6]]},
+    {'name': 'sin(x[deg]): a scaled angle is not a plain number', 'tree': [7, 10, [3, 45]]},
+    {'name': 'cosh(x[mrad])', 'tree': [7, 17, [3, 42]]},
+    {'name': 'sin(r[radian])', 'tree': [7, 10, [3, 39]]},
+    {'name': '(repaired) r[radian] + k[dimensionless]', 'tree': [4, [3, 39], [3, 0]]},
+    {'name': '(repaired) a[mV] ** _2[one]', 'tree': [6, [3, 6], Q(1, 2, 17)]},
+    {'name': 'a[mV] ** _50[percent]', 'tree': [6, [3, 6], Q(1, 50, 8)]},
     {'name': '1/floor(_0.5)', 'tree': [6, [7, 3, Q(1, F(1, 2))], [0, 0, F(-1)]]},
 ]
 
@@ -65,12 +71,17 @@ def _sub_unit(W, cache, sub):
     return cache[key]
 
 
+def _nodim(d):
+    """radian is a base unit without a dimension: an angle is dimensionless (CellML; UnitStore.is_equivalent)"""
+    return {k: v for k, v in d.items() if k != 'radian'}
+
+
 def _equiv(a, b):
-    return a[0] == 'ok' and b[0] == 'ok' and uc.close(a[1], b[1]) and a[2] == b[2]
+    return a[0] == 'ok' and b[0] == 'ok' and uc.close(a[1], b[1]) and _nodim(a[2]) == _nodim(b[2])
 
 
 def _dimless(a):
-    return a[0] == 'ok' and not a[2] and uc.close(a[1], 1.0)
+    return a[0] == 'ok' and not _nodim(a[2]) and uc.close(a[1], 1.0)
 
 
 def structure_findings(W, tree):
